@@ -52,3 +52,16 @@ Theorem C11_one_and_only :
     forall w, Lang orbit t w <-> w = text_to_string txt.
 Proof. exact invariant_text_characterises. Qed.
 Print Assumptions C11_one_and_only.
+
+From WaxModel Require Import Parse Glob.
+From WaxProofs Require Import BuiltNonempty.
+
+(* for every glob that builds the side condition on the tree is discharged (the parser never produces an empty alternation or
+   concatenation, the rule checker rejects the bounds 0,0) *)
+Theorem C11_built_globs_one_and_only :
+  forall (orbit : char -> list char) (has_casing : char -> bool),
+    (forall c d, has_casing c = false -> In d (orbit c) -> d = c) ->
+    forall e t r txt, build e = BuildOk t r -> classes_plain t = true -> text_variance has_casing t = Ok (Inv txt) ->
+    forall w, Lang orbit t w <-> w = text_to_string txt.
+Proof. exact built_invariant_text_characterises. Qed.
+Print Assumptions C11_built_globs_one_and_only.
